@@ -23,6 +23,7 @@ import (
 	"path/filepath"
 	"strings"
 	"sync"
+	"unicode/utf8"
 
 	oci "github.com/opencontainers/runtime-spec/specs-go"
 	orderedyaml "gopkg.in/yaml.v3"
@@ -140,6 +141,7 @@ func (s *Spec) write(overwrite bool) error {
 		data = append([]byte("---\n"), data...)
 	} else {
 		data, err = json.Marshal(s.Spec)
+		data = escapeJSONForYAML(data)
 	}
 	if err != nil {
 		return fmt.Errorf("failed to marshal Spec file: %w", err)
@@ -169,6 +171,21 @@ func (s *Spec) write(overwrite bool) error {
 	}
 
 	return err
+}
+
+// escapeJSONForYAML escapes the characters which encoding/json leaves as they
+// are in strings, but which the YAML parser we read Spec files with rejects
+// (DEL, C1 control characters, U+FFFE, U+FFFF) or alters (U+0085).
+func escapeJSONForYAML(data []byte) []byte {
+	escaped := make([]byte, 0, len(data))
+	for _, r := range string(data) {
+		if r == 0x7f || (r >= 0x80 && r <= 0x9f) || r == 0xfffe || r == 0xffff {
+			escaped = append(escaped, fmt.Sprintf("\\u%04x", r)...)
+			continue
+		}
+		escaped = utf8.AppendRune(escaped, r)
+	}
+	return escaped
 }
 
 // GetVendor returns the vendor of this Spec.
